@@ -69,7 +69,11 @@ func main() {
 		}
 		for i, q := range sc.Queries {
 			x := o.Obs[i]
-			fmt.Printf("%-40s ids=%v groups=%v err=%q dup=%v raw=%d pqs=%d\n", q, x.Ids, x.Groups, x.Err, x.Dup, x.Raw, x.Pqs)
+			tot := ""
+			if x.Total != nil {
+				tot = fmt.Sprintf(" total=%d", *x.Total)
+			}
+			fmt.Printf("%-40s ids=%v groups=%v err=%q dup=%v raw=%d pqs=%d%s\n", q, x.Ids, x.Groups, x.Err, x.Dup, x.Raw, x.Pqs, tot)
 		}
 		return
 	}
